@@ -111,6 +111,8 @@ theorem c07_add_shapeFld (S : StrFns) (L : List Mapper) (m : Mapper) :
     ∀ f : Fld, stepFldOK S m L f = true → add S false m (shapeFld S L f) = shapeFld S (L ++ [m]) f
   | .scalar n o, _ => by
     simp [shapeFld, add, addKey, addVal_fld, c07_keyOf_append]
+  | .mapped n o ci fs, _ => by
+    simp [shapeFld, add, addKey, addVal_fld, c07_keyOf_append]
   | .nested n o sh ci fs, hm => by
     simp only [stepFldOK, stepNestOK, and_true_iff', Bool.not_eq_true'] at hm
     obtain ⟨hhit, hagree⟩ := hm
@@ -154,6 +156,7 @@ theorem c07_foldAdd_shape (S : StrFns) (fs : List Fld) :
 
 theorem c07_shapeFld_nil (S : StrFns) : ∀ f : Fld, shapeFld S [] f = baseFld S false f
   | .scalar n o => by simp [shapeFld, baseFld, keyOf]
+  | .mapped n o ci fs => by simp [shapeFld, baseFld, keyOf]
   | .nested n o sh own fs => by simp [shapeFld, baseFld, keyOf, nk, handed, thru, foldAdd, CInfo.lst]
 
 theorem c07_shapeFields_nil (S : StrFns) : ∀ fs : List Fld, shapeFields S [] fs = baseFields S false fs
@@ -211,6 +214,7 @@ theorem c07_shape_nest_inv (S : StrFns) (L : List Mapper) (k : String) (w : MV) 
     rcases hm with hm | hm
     · cases f with
       | scalar n o => simp [shapeFld] at hm
+      | mapped n o ci fs' => simp [shapeFld] at hm
       | nested n o sh own fs' =>
         simp only [shapeFld, List.mem_cons, List.not_mem_nil, or_false] at hm
         rcases hm with hm | hm
@@ -229,6 +233,7 @@ theorem c07_shape_nest_inv (S : StrFns) (L : List Mapper) (k : String) (w : MV) 
           rcases hm with hm | hm
           · cases g with
             | scalar n o => simp [shapeFld] at hm
+            | mapped n o ci fs' => simp [shapeFld] at hm
             | nested n o sh own fs' =>
               simp only [shapeFld, List.mem_cons, List.not_mem_nil, or_false] at hm
               rcases hm with hm | hm
@@ -323,6 +328,17 @@ theorem c07_shape_eq_f (S : StrFns) :
       | dns => rw [hk] at hd; exact c07_mvEq_dns hd.1
       | sub q => rw [hk] at hr; simp [stepKey, mvFlatEq] at hr
     simp only [shapeFld, hkey]
+  | .mapped n o ci fs', full, B, L, hm, hn, hr, hd => by
+    have hl := c07_lookupR_shape_fld S L full _ hn hm
+    simp only [Fld.name] at hl
+    simp only [shapeFld, dSub, hl, and_true_iff'] at hd
+    simp only [reaggF, fldStepOK] at hr
+    have hkey : keyOf S L n = keyOf S B n := by
+      cases hk : keyOf S B n with
+      | key s => rw [hk] at hd; exact c07_mvEq_key hd.1
+      | dns => rw [hk] at hd; exact c07_mvEq_dns hd.1
+      | sub q => rw [hk] at hr; simp [stepKey, mvFlatEq] at hr
+    simp only [shapeFld, hkey]
   | .nested n o sh own fs, full, B, L, hm, hn, hr, hd => by
     obtain ⟨hstep, hcross, _, hpreB, hpreL, hnod, hrec⟩ := c07_reaggF_nested hr
     have hl := c07_lookupR_shape_fld S L full _ hn hm
@@ -393,6 +409,9 @@ theorem c07_reagg_f (S : StrFns) :
   | .scalar n o, full, B, L, _, _, hr => by
     simp only [reaggF, fldStepOK] at hr
     simp [shapeFld, add, addKey, addVal_fld, c07_mvFlatEq hr]
+  | .mapped n o ci fs', full, B, L, _, _, hr => by
+    simp only [reaggF, fldStepOK] at hr
+    simp [shapeFld, add, addKey, addVal_fld, c07_mvFlatEq hr]
   | .nested n o sh own fs, full, B, L, hm, hn, hr => by
     obtain ⟨hstep, hcross, hrekey, hpreB, hpreL, hnod, hrec⟩ := c07_reaggF_nested hr
     have hl2 := c07_lookupR_shape_nest S L full n o sh own fs hn hm
@@ -457,6 +476,7 @@ theorem c07_shapeFields_ne_nil (S : StrFns) (L : List Mapper) :
   | f :: fs, _ => by
     cases f with
     | scalar n o => exact ⟨_, _, by simp [shapeFields, shapeFld]; exact ⟨rfl, rfl⟩⟩
+    | mapped n o ci fs' => exact ⟨_, _, by simp [shapeFields, shapeFld]; exact ⟨rfl, rfl⟩⟩
     | nested n o sh own fs' => exact ⟨_, _, by simp [shapeFields, shapeFld]; exact ⟨rfl, rfl⟩⟩
 
 theorem c07_stepFldOK_camel (S : StrFns) (L : List Mapper) (f : Fld) : stepFldOK S .camel L f = true := by
@@ -490,6 +510,7 @@ theorem c07_rtFld_name (S : StrFns) (camel ku : Bool) (lv : LevelPred) (ms M : M
     (p : String × J) (h : rtFld S camel ku lv ms M f p = true) : f.name = p.1 := by
   cases f with
   | scalar n o => simp only [rtFld, and_true_iff', beq_iff_eq] at h; simp [Fld.name, h.1]
+  | mapped n o ci fs' => simp [rtFld] at h
   | nested n o sh own fs => simp only [rtFld, and_true_iff', beq_iff_eq] at h; simp [Fld.name, h.1]
 
 theorem c07_rtFields_names (S : StrFns) (camel ku : Bool) (lv : LevelPred) (ms M : MDict) :
@@ -516,6 +537,7 @@ theorem c07_agrees_lookup (S : StrFns) (d : MDict) (L : List Mapper) (fs : List 
   have := c07_agreesF_of_mem S d L fs h fl hm
   cases fl with
   | scalar n o => simpa [AgreesF, Fld.name] using this
+  | mapped n o ci fs' => simpa [AgreesF, Fld.name] using this
   | nested n o sh own fs' => simp only [AgreesF] at this; simpa [Fld.name] using this.1
 
 /-- inside the demanded domain, equal field entries on both sides give all level hypotheses -/
@@ -647,6 +669,7 @@ theorem c07_sync_fld (S : StrFns) (camel : Bool)
       rtFld S camel ku (levelDomE S) ms (shapeFields S Ld full) f p = true →
       rtFld S camel ku (levelOK S) ms (shapeFields S Ld full) f p = true
   | .scalar n o, _, _, _, _, _, _, _, _, _, _, _, h => by simpa [rtFld] using h
+  | .mapped n o ci fs', _, _, _, _, _, _, _, _, _, _, _, h => by simp [rtFld] at h
   | .nested n o sh ci fs, full, ku, ms, Ls, Ld, p, hrel, hn, ha, hm, hr, h => by
     simp only [regionF, and_true_iff'] at hr
     obtain ⟨⟨⟨⟨⟨⟨hdes, htrack⟩, hne⟩, hpre⟩, hreagg⟩, hprec⟩, hregion⟩ := hr
